@@ -83,19 +83,24 @@ pub fn c41(args: &Args) -> ! {
         }
     }
     // (backend, family, max program length, bounds, unbounded, shards, cap)
+    // family 3 (two successive removals) runs one scenario per child: 40 scenarios
     let plan: Vec<(i64, i64, i64, Vec<usize>, bool, i64, u64)> = if quick {
         vec![
             (0, 1, 2, vec![0, 1, 2, 3], true, 1, 30),
             (0, 2, 1, vec![0, 1, 2, 3], false, 2, 30),
+            (0, 3, 3, vec![2, 3], false, 40, 30),
             (1, 1, 2, vec![0, 1, 2, 3], true, 1, 30),
-            (1, 2, 1, vec![0, 1, 2, 3], true, 2, 30),
+            (1, 2, 1, vec![0, 1, 2, 3], false, 2, 30),
+            (1, 3, 3, vec![2, 3], false, 40, 30),
         ]
     } else {
         vec![
-            (0, 1, 3, vec![0, 1, 2, 3], true, 2, 700),
-            (0, 2, 1, vec![0, 1, 2, 3, 4, 5], false, 6, 700),
-            (1, 1, 3, vec![0, 1, 2, 3], true, 1, 700),
-            (1, 2, 1, vec![0, 1, 2, 3], true, 2, 700),
+            (0, 1, 3, vec![0, 1, 2, 3], true, 4, 700),
+            (0, 2, 1, vec![0, 1, 2, 3, 4], false, 6, 700),
+            (0, 3, 3, vec![2, 3, 4], false, 40, 700),
+            (1, 1, 3, vec![0, 1, 2, 3], true, 2, 700),
+            (1, 2, 1, vec![0, 1, 2, 3, 4], false, 4, 700),
+            (1, 3, 3, vec![2, 3, 4], true, 40, 700),
         ]
     };
     for (backend, family, len, bs, unb, shards, cap) in plan {
@@ -104,7 +109,11 @@ pub fn c41(args: &Args) -> ! {
                 let shape = format!(
                     "{} state: writer runs remove(x) | remove_all | remove_if(id==x) while {} with cached contexts for x and y; channel orders x,y and y,x; seal and open channels; shard {sh}/{shards}",
                     bname(backend),
-                    if family == 1 { format!("one reader runs every program over {{op(x), op(y)}} of length <= {len}") } else { "two readers run one or two operations".to_string() }
+                    match family {
+                        1 => format!("one reader runs every program over {{op(x), op(y)}} of length <= {len}"),
+                        2 => "two readers run one or two operations".to_string(),
+                        _ => format!("(followed by remove(y)) one reader runs every program of length <= {len} that operates on y at least twice"),
+                    }
                 );
                 jobs.push(Job::new("afc", "c41", &[backend, family, len, sh, shards], b, cap, &shape));
             }
